@@ -32,6 +32,9 @@ def run():
     out = p.stdout + p.stderr
     import re
     m = re.search(r'test result: (\w+)\. (\d+) passed; (\d+) failed', out)
+    if not m and p.returncode != 0 and ('exited abnormally' in out or 'error: test failed' in out):
+        # the repository installs a panic hook that exits the process: a failing test shows up as an abnormal exit
+        return 'test binary exited abnormally (panic hook calls process::exit): ' + ' '.join(out.strip().split('\n')[-2:])[:300], 1, 0
     return (m.group(0) if m else 'no result: ' + out[-400:]), (int(m.group(3)) if m else -1), (int(m.group(2)) if m else -1)
 
 reset()
